@@ -102,6 +102,7 @@ ADDENDA8 = {
  "C20": " Round 8: the CA injection loop runs for webhook configurations of any name.",
 }
 ADDENDA9 = {
+ "C20": " Round 9: (R20.1) the listings that fill the installed-package index tolerate NotFound only.",
  "C04": " Round 9: (R4.2) the read of a Secret feeding req.Credentials tolerates no error class and no credential is stored on its failure edges.",
  "C07": " Round 9: PatchingManagedFieldsUpgrader.Upgrade (the step that hands the claim-derived fields to the server-side field owner) is an anchor under R7.0.",
  "C08": " Round 9: (R8.5) the deletion path of a Usage skips Get(using) only on 'spec.by is nil' or 'the composite label is empty' (tabled conditions).",
